@@ -251,6 +251,10 @@ class AmplitudeChain(ModelDecay):
             print("Did not find at least one of the state particles from", *event_type)
             raise
 
+        # The option applies to the file that carries it: the class-wide setting
+        # is put back once the lines of this file have been made
+        had_own_setting = "cartesian" in cls.__dict__
+        previous_setting = cls.cartesian
         fcs = get_from_parser(parsed, "fast_coherent_sum")
         if fcs:
             ((fcs,),) = fcs
@@ -280,7 +284,14 @@ class AmplitudeChain(ModelDecay):
         )
 
         # Convert the matches into AmplitudeChains
-        line_arr = [cls.from_matched_line(c) for c in cplx_decay_lines]
+        try:
+            line_arr = [cls.from_matched_line(c) for c in cplx_decay_lines]
+        finally:
+            if fcs:
+                if had_own_setting:
+                    cls.cartesian = previous_setting
+                else:
+                    del cls.cartesian
 
         # Expand partial lines into complete lines
         new_line_arr = [
